@@ -1,6 +1,8 @@
 import VlsModel.Model.Enforcement
 import VlsModel.Gen.FnEnforce
 import VlsModel.Gen.FnSimpleState
+import VlsModel.Gen.FnChannelForceClose
+import VlsModel.Gen.FnChannelRevoke
 import VlsModel.Lemmas.FnGen
 import VlsModel.Lemmas.EnforcementFn
 import VlsModel.Lemmas.HandlerFn
@@ -304,5 +306,391 @@ example :
   decide
 
 end HandlerArms
+
+/-! ### Round 10: the force-close signing entry points themselves (`Gen/FnChannelForceClose.lean`)
+
+`Channel::sign_holder_commitment_tx_phase2` (channel.rs:1333) and `Channel::sign_holder_commitment_tx_phase2_redundant`
+(channel.rs:1490) are regenerated from the source on every run (targets `translate/fn_targets/ChannelForceClose.b1.json`;
+LDK's transaction building / signing and `Channel::persist` are declared externals, `persist()` as a function of the
+enforcement state it writes).  The clause of C02 they carry, stated on the generated bodies: **a holder signature leaves
+the function only after `channel_closed = true` has been set AND that very state went through `persist()`**; a store that
+refuses the write means no signature — on EVERY call, in particular on a retried call on a channel whose in-memory flag is
+already set (a write elided for "already closed" breaks these theorems: seeds C02-r5-2, C02-r7-1). -/
+section ForceClose
+open VlsModel.Gen.FnChannelForceClose (EnforcementState CommitmentInfo2 HTLCInfo2 HTLCOutputInCommitment ChannelPublicKeys ChannelSetup)
+
+theorem fc_bind_ok {α β : Type} {x : Rs.M α} {f : α → Rs.M β} {b : β} (h : x >>= f = .ok b) :
+    ∃ a, x = .ok a ∧ f a = .ok b := by
+  cases x with
+  | error e => cases h
+  | ok a => exact ⟨a, rfl, h⟩
+
+variable {InMemorySigner Signature Validator PublicKey TxCreationKeys PaymentHash CommitmentTransaction
+  HolderCommitmentTransaction ChainState : Type}
+
+/-- the generated point guard: a point is handed out only for `n ≤ next_holder_commit_num + 1` -/
+theorem C02_fn_force_close_point_guard (unchecked : Nat → PublicKey)
+    (self : Gen.FnChannelForceClose.Channel InMemorySigner) (n : Nat) (pt : PublicKey)
+    (h : Gen.FnChannelForceClose.Channel.get_per_commitment_point unchecked self n = .ok pt) :
+    n ≤ self.enforcement_state.next_holder_commit_num + 1 ∧ pt = unchecked n := by
+  unfold Gen.FnChannelForceClose.Channel.get_per_commitment_point at h
+  obtain ⟨t, ht, h⟩ := fc_bind_ok h
+  have htv : t = self.enforcement_state.next_holder_commit_num + 1 := by
+    unfold Rs.uadd at ht; split at ht
+    · cases ht; rfl
+    · cases ht
+  by_cases hg : n > t
+  · simp [hg, Rs.fail] at h
+  · simp only [hg, decide_false] at h
+    cases h
+    exact ⟨by omega, rfl⟩
+
+/-- **`sign_holder_commitment_tx_phase2`: no signature without the durable closed mark.**  If the generated body returns a
+    signature then (1) the guard `get_current_holder_commitment_info` accepted the number on the state as it was,
+    (2) the signature is LDK's for the transaction rebuilt from the STORED current commitment under that number,
+    (3) the returned channel is the old one with `channel_closed = true` and nothing else changed, and
+    (4) `persist()` was called on exactly that state and succeeded. -/
+theorem C02_fn_sign_holder_commitment_tx_phase2
+    (validator : Validator) (getCur : Validator → EnforcementState → Nat → Rs.M (CommitmentInfo2 PaymentHash))
+    (unchecked : Nat → PublicKey) (mkKeys : PublicKey → TxCreationKeys)
+    (mkTx : Nat → TxCreationKeys → Nat → Nat → Nat → List (HTLCOutputInCommitment PaymentHash) → CommitmentTransaction)
+    (dummies : CommitmentTransaction → List Signature) (dummy : Signature)
+    (pubkeys : InMemorySigner → ChannelPublicKeys PublicKey) (cpkeys : ChannelPublicKeys PublicKey)
+    (wrap : CommitmentTransaction → Signature → List Signature → PublicKey → PublicKey → HolderCommitmentTransaction)
+    (ldkSign : InMemorySigner → HolderCommitmentTransaction → Rs.M Signature)
+    (persist : EnforcementState → Rs.M Unit)
+    (self self' : Gen.FnChannelForceClose.Channel InMemorySigner) (n : Nat) (sig : Signature)
+    (h : Gen.FnChannelForceClose.Channel.sign_holder_commitment_tx_phase2 validator getCur unchecked mkKeys mkTx dummies dummy
+           pubkeys cpkeys wrap ldkSign persist self n = .ok (self', sig)) :
+    ∃ info2 htlcs,
+      getCur validator self.enforcement_state n = .ok info2 ∧
+      Gen.FnChannelForceClose.Channel.htlcs_info2_to_oic info2.offered_htlcs info2.received_htlcs = .ok htlcs ∧
+      n ≤ self.enforcement_state.next_holder_commit_num + 1 ∧
+      (let rtx := mkTx n (mkKeys (unchecked n))
+          (if Gen.FnChannelForceClose.ChannelSetup.is_zero_fee_htlc self.setup then 0 else info2.feerate_per_kw)
+          info2.to_broadcaster_value_sat info2.to_countersigner_value_sat htlcs
+       ldkSign self.keys (wrap rtx dummy (dummies rtx) (pubkeys self.keys).funding_pubkey cpkeys.funding_pubkey) = .ok sig) ∧
+      self' = { self with enforcement_state := { self.enforcement_state with channel_closed := true } } ∧
+      self'.enforcement_state.channel_closed = true ∧
+      persist self'.enforcement_state = .ok () := by
+  unfold Gen.FnChannelForceClose.Channel.sign_holder_commitment_tx_phase2 at h
+  obtain ⟨info2, hcur, h⟩ := fc_bind_ok h
+  obtain ⟨htlcs, hoic, h⟩ := fc_bind_ok h
+  obtain ⟨pt, hpt, h⟩ := fc_bind_ok h
+  obtain ⟨sg, hsig, h⟩ := fc_bind_ok h
+  obtain ⟨u, hper, h⟩ := fc_bind_ok h
+  obtain ⟨hle, hptv⟩ := C02_fn_force_close_point_guard unchecked self n pt hpt
+  cases h
+  subst hptv
+  exact ⟨info2, htlcs, hcur, hoic, hle, hsig, rfl, rfl, by cases u; exact hper⟩
+
+/-- a store that refuses the write of the closed state means no signature, whatever the in-memory flag was before
+    (the retry after a failed first attempt included) -/
+theorem C02_fn_sign_holder_phase2_no_signature_without_write
+    (validator : Validator) (getCur : Validator → EnforcementState → Nat → Rs.M (CommitmentInfo2 PaymentHash))
+    (unchecked : Nat → PublicKey) (mkKeys : PublicKey → TxCreationKeys)
+    (mkTx : Nat → TxCreationKeys → Nat → Nat → Nat → List (HTLCOutputInCommitment PaymentHash) → CommitmentTransaction)
+    (dummies : CommitmentTransaction → List Signature) (dummy : Signature)
+    (pubkeys : InMemorySigner → ChannelPublicKeys PublicKey) (cpkeys : ChannelPublicKeys PublicKey)
+    (wrap : CommitmentTransaction → Signature → List Signature → PublicKey → PublicKey → HolderCommitmentTransaction)
+    (ldkSign : InMemorySigner → HolderCommitmentTransaction → Rs.M Signature)
+    (persist : EnforcementState → Rs.M Unit)
+    (self : Gen.FnChannelForceClose.Channel InMemorySigner) (n : Nat)
+    (hrefuse : ∀ u, persist { self.enforcement_state with channel_closed := true } ≠ .ok u) :
+    ∀ r, Gen.FnChannelForceClose.Channel.sign_holder_commitment_tx_phase2 validator getCur unchecked mkKeys mkTx dummies dummy
+           pubkeys cpkeys wrap ldkSign persist self n ≠ .ok r := by
+  intro ⟨self', sig⟩ h
+  obtain ⟨_, _, _, _, _, _, hself, _, hper⟩ :=
+    C02_fn_sign_holder_commitment_tx_phase2 validator getCur unchecked mkKeys mkTx dummies dummy pubkeys cpkeys wrap ldkSign
+      persist self self' n sig h
+  subst hself
+  exact hrefuse () hper
+
+/-- **`sign_holder_commitment_tx_phase2_redundant`**: a signature only after the point guard, the content built from the
+    request passed `validate_holder_commitment_tx` on the state as it was, and the closed state was written. -/
+theorem C02_fn_sign_holder_commitment_tx_phase2_redundant
+    (unchecked : Nat → PublicKey)
+    (mkInfo : Nat → Nat → List (HTLCInfo2 PaymentHash) → List (HTLCInfo2 PaymentHash) → Nat → Rs.M (CommitmentInfo2 PaymentHash))
+    (validator : Validator) (chainState : ChainState)
+    (validateHolder : Validator → EnforcementState → Nat → PublicKey → ChannelSetup → ChainState → CommitmentInfo2 PaymentHash → Rs.M Unit)
+    (dummiesN : Nat → List Signature) (mkKeys : PublicKey → TxCreationKeys)
+    (mkTx : Nat → TxCreationKeys → Nat → Nat → Nat → List (HTLCOutputInCommitment PaymentHash) → CommitmentTransaction)
+    (dummy : Signature)
+    (pubkeys : InMemorySigner → ChannelPublicKeys PublicKey) (cpkeys : ChannelPublicKeys PublicKey)
+    (wrap : CommitmentTransaction → Signature → List Signature → PublicKey → PublicKey → HolderCommitmentTransaction)
+    (ldkSign : InMemorySigner → HolderCommitmentTransaction → Rs.M Signature)
+    (persist : EnforcementState → Rs.M Unit)
+    (self self' : Gen.FnChannelForceClose.Channel InMemorySigner) (n feerate toHolder toCp : Nat)
+    (off recv : List (HTLCInfo2 PaymentHash)) (sig : Signature)
+    (h : Gen.FnChannelForceClose.Channel.sign_holder_commitment_tx_phase2_redundant unchecked mkInfo validator chainState
+           validateHolder dummiesN mkKeys mkTx dummy pubkeys cpkeys wrap ldkSign persist self n feerate toHolder toCp off recv
+         = .ok (self', sig)) :
+    ∃ info2 htlcs,
+      n ≤ self.enforcement_state.next_holder_commit_num + 1 ∧
+      mkInfo toHolder toCp off recv feerate = .ok info2 ∧
+      validateHolder validator self.enforcement_state n (unchecked n) self.setup chainState info2 = .ok () ∧
+      Gen.FnChannelForceClose.Channel.htlcs_info2_to_oic off recv = .ok htlcs ∧
+      (let tx := mkTx n (mkKeys (unchecked n))
+          (if Gen.FnChannelForceClose.ChannelSetup.is_zero_fee_htlc self.setup then 0 else feerate) toHolder toCp htlcs
+       ldkSign self.keys (wrap tx dummy (dummiesN htlcs.length) (pubkeys self.keys).funding_pubkey cpkeys.funding_pubkey) = .ok sig) ∧
+      self' = { self with enforcement_state := { self.enforcement_state with channel_closed := true } } ∧
+      self'.enforcement_state.channel_closed = true ∧
+      persist self'.enforcement_state = .ok () := by
+  unfold Gen.FnChannelForceClose.Channel.sign_holder_commitment_tx_phase2_redundant at h
+  obtain ⟨pt, hpt, h⟩ := fc_bind_ok h
+  obtain ⟨info2, hinfo, h⟩ := fc_bind_ok h
+  obtain ⟨u0, hval, h⟩ := fc_bind_ok h
+  obtain ⟨htlcs, hoic, h⟩ := fc_bind_ok h
+  obtain ⟨sg, hsig, h⟩ := fc_bind_ok h
+  obtain ⟨u, hper, h⟩ := fc_bind_ok h
+  obtain ⟨hle, hptv⟩ := C02_fn_force_close_point_guard unchecked self n pt hpt
+  cases h
+  subst hptv
+  exact ⟨info2, htlcs, hle, hinfo, by cases u0; exact hval, hoic, hsig, rfl, rfl, by cases u; exact hper⟩
+
+theorem C02_fn_sign_holder_redundant_no_signature_without_write
+    (unchecked : Nat → PublicKey)
+    (mkInfo : Nat → Nat → List (HTLCInfo2 PaymentHash) → List (HTLCInfo2 PaymentHash) → Nat → Rs.M (CommitmentInfo2 PaymentHash))
+    (validator : Validator) (chainState : ChainState)
+    (validateHolder : Validator → EnforcementState → Nat → PublicKey → ChannelSetup → ChainState → CommitmentInfo2 PaymentHash → Rs.M Unit)
+    (dummiesN : Nat → List Signature) (mkKeys : PublicKey → TxCreationKeys)
+    (mkTx : Nat → TxCreationKeys → Nat → Nat → Nat → List (HTLCOutputInCommitment PaymentHash) → CommitmentTransaction)
+    (dummy : Signature)
+    (pubkeys : InMemorySigner → ChannelPublicKeys PublicKey) (cpkeys : ChannelPublicKeys PublicKey)
+    (wrap : CommitmentTransaction → Signature → List Signature → PublicKey → PublicKey → HolderCommitmentTransaction)
+    (ldkSign : InMemorySigner → HolderCommitmentTransaction → Rs.M Signature)
+    (persist : EnforcementState → Rs.M Unit)
+    (self : Gen.FnChannelForceClose.Channel InMemorySigner) (n feerate toHolder toCp : Nat)
+    (off recv : List (HTLCInfo2 PaymentHash))
+    (hrefuse : ∀ u, persist { self.enforcement_state with channel_closed := true } ≠ .ok u) :
+    ∀ r, Gen.FnChannelForceClose.Channel.sign_holder_commitment_tx_phase2_redundant unchecked mkInfo validator chainState
+           validateHolder dummiesN mkKeys mkTx dummy pubkeys cpkeys wrap ldkSign persist self n feerate toHolder toCp off recv
+         ≠ .ok r := by
+  intro ⟨self', sig⟩ h
+  obtain ⟨_, _, _, _, _, _, _, hself, _, hper⟩ :=
+    C02_fn_sign_holder_commitment_tx_phase2_redundant unchecked mkInfo validator chainState validateHolder dummiesN mkKeys mkTx
+      dummy pubkeys cpkeys wrap ldkSign persist self self' n feerate toHolder toCp off recv sig h
+  subst hself
+  exact hrefuse () hper
+
+/-- the hand-written model agrees on the write pattern: a signature of `signHolder` / `signRedundant` comes with
+    `closed = true` in the new state and `persisted = true` -/
+theorem C02_fn_model_sign_closes_durably (c : Chan) (n : Nat) (h : (signHolder c n).out.signed ≠ none) :
+    (signHolder c n).c.closed = true ∧ (signHolder c n).persisted = true := by
+  unfold signHolder at h ⊢
+  by_cases h0 : n + 1 > U64.MAX
+  · simp [h0, fail] at h
+  · by_cases h1 : n + 1 ≠ c.next
+    · simp [h0, h1, fail] at h
+    · cases hc : c.cur
+      · simp [h0, h1, hc, fail] at h
+      · simp [h0, h1]
+
+/-- non-vacuity: with a guard that accepts, a signer that signs and a store that writes, commitment 0 of a channel at
+    `next = 1` is signed, the flag is set and written; with a store that refuses, the same request returns no signature -/
+example :
+    let self : Gen.FnChannelForceClose.Channel Nat :=
+      { keys := 7, enforcement_state := { next_holder_commit_num := 1, channel_closed := false }, setup := { commitment_type := .Anchors } }
+    let info : CommitmentInfo2 Nat :=
+      { to_countersigner_value_sat := 1, to_broadcaster_value_sat := 2, offered_htlcs := [], received_htlcs := [], feerate_per_kw := 253 }
+    let run (persist : EnforcementState → Rs.M Unit) :=
+      Gen.FnChannelForceClose.Channel.sign_holder_commitment_tx_phase2 (Signature := Nat) (PublicKey := Nat) (TxCreationKeys := Nat)
+        (CommitmentTransaction := Nat) (HolderCommitmentTransaction := Nat) ()
+        (fun _ es n => if n + 1 = es.next_holder_commit_num then .ok info else Rs.fail "policy-other")
+        (fun n => n) id (fun n _ _ _ _ _ => n) (fun _ => []) 0 (fun _ => ⟨1⟩) ⟨2⟩ (fun tx _ _ _ _ => tx) (fun _ tx => .ok (100 + tx))
+        persist self 0
+    (run (fun es => if es.channel_closed then .ok () else Rs.panic)
+        = .ok ({ self with enforcement_state := { next_holder_commit_num := 1, channel_closed := true } }, 100))
+    ∧ (∀ r, run (fun _ => Rs.fail "internal") ≠ .ok r) := by
+  refine ⟨by rfl, ?_⟩
+  intro r
+  exact C02_fn_sign_holder_phase2_no_signature_without_write _ _ _ _ _ _ _ _ _ _ _ _ _ _ (by intro u; simp [Rs.fail]) r
+
+end ForceClose
+
+/-! ### Round 10: `Channel::revoke_previous_holder_commitment` itself (`Gen/FnChannelRevoke.lean`)
+
+channel.rs:1246 with its helpers `advance_holder_commitment_state` (:1089), `release_commitment_secret` (:1109),
+`get_per_commitment_secret`, `get_per_commitment_point`, regenerated on every run (targets
+`translate/fn_targets/ChannelRevoke.b1.json`; payment summaries / `validate_payments` / `Validator::set_next_holder_commit_num`
+/ `persist()` are declared externals).  Clauses of C02 (and C01) stated on the generated body, under a filter that keeps
+the two guard tags errors: a closed channel never advances and discloses no NEW secret; the state advances only from a
+staged commitment, after the payment re-check, and is written before the secret leaves; every disclosed secret `n-1`
+satisfies the release guard `(n-1) + 2 ≤ next` on the state that is returned. -/
+section Revoke
+open VlsModel.Gen.FnChannelRevoke (EnforcementState CommitmentInfo2 ChannelSetup Channel)
+
+variable {CommitmentSignatures InMemorySigner ChannelId PublicKey SecretKey Validator Secret32 PaymentSummary Node NodeState
+  BalanceDelta : Type}
+variable (unchecked : Nat → PublicKey) (validator : Validator) (f : String → Bool)
+  (rel : InMemorySigner → Nat → Option Secret32) (fs : Secret32 → Option SecretKey)
+
+/-- the release guard of the generated `get_per_commitment_secret`: a secret of `k` only when `k + 2 ≤ next` -/
+theorem C02_fn_revoke_secret_guard (hf : f "policy-revoke-new-commitment-signed" = true)
+    (self : Channel CommitmentSignatures InMemorySigner ChannelId) (k : Nat) (s : SecretKey)
+    (h : Channel.get_per_commitment_secret validator f rel fs self k = .ok s) :
+    k + 2 ≤ self.enforcement_state.next_holder_commit_num := by
+  unfold Channel.get_per_commitment_secret at h
+  by_cases hg : k + 2 ≤ self.enforcement_state.next_holder_commit_num
+  · exact hg
+  · exfalso
+    dsimp only at h
+    split at h
+    · rename_i m hm
+      split at h
+      · obtain ⟨_, h1, _⟩ := fc_bind_ok h
+        simp [Rs.policyErr, hf, Rs.fail] at h1
+      · rename_i hd
+        unfold Rs.ucheckedAdd at hm
+        split at hm
+        · cases hm; simp at hd; omega
+        · cases hm
+    · rw [if_pos rfl] at h
+      obtain ⟨_, h1, _⟩ := fc_bind_ok h
+      simp [Rs.policyErr, hf, Rs.fail] at h1
+
+/-- the generated `release_commitment_secret`: the channel is returned unchanged; a secret in the reply is that of `n - 1`
+    and passed the release guard (`n + 1 ≤ next`) -/
+theorem C02_fn_release_commitment_secret (hf : f "policy-revoke-new-commitment-signed" = true)
+    (self self' : Channel CommitmentSignatures InMemorySigner ChannelId) (n : Nat) (pt : PublicKey) (sec : Option SecretKey)
+    (h : Channel.release_commitment_secret unchecked validator f rel fs self n = .ok (self', (pt, sec))) :
+    self' = self ∧ (sec ≠ none → 1 ≤ n ∧ n + 1 ≤ self.enforcement_state.next_holder_commit_num) := by
+  unfold Channel.release_commitment_secret at h
+  obtain ⟨p, _, h⟩ := fc_bind_ok h
+  by_cases hn : n ≥ 1
+  · simp only [hn, decide_true, if_true] at h
+    obtain ⟨k, hk, h⟩ := fc_bind_ok h
+    obtain ⟨s, hs, h⟩ := fc_bind_ok h
+    have hsub : Rs.usub n 1 = .ok (n - 1) := by simp [Rs.usub, hn]
+    have hkv : n - 1 = k := Except.ok.inj (hsub.symm.trans hk)
+    have hgd := C02_fn_revoke_secret_guard validator f rel fs hf self k s hs
+    have h' : (self, p, some s) = (self', pt, sec) := Except.ok.inj h
+    cases h'
+    exact ⟨rfl, fun _ => ⟨hn, by omega⟩⟩
+  · simp only [hn, decide_false] at h
+    have h' : (self, p, (none : Option SecretKey)) = (self', pt, sec) := Except.ok.inj h
+    cases h'
+    exact ⟨rfl, fun hne => absurd rfl hne⟩
+
+variable (incoming outgoing : EnforcementState CommitmentSignatures → Option CommitmentInfo2 → Option CommitmentInfo2 → PaymentSummary)
+  (node : Node) (getState : Node → NodeState)
+  (claimable : EnforcementState CommitmentSignatures → NodeState → Option CommitmentInfo2 → Option CommitmentInfo2 → ChannelSetup → Rs.M BalanceDelta)
+  (validatePayments : NodeState → ChannelId → PaymentSummary → PaymentSummary → BalanceDelta → Validator → Rs.M Unit)
+  (setNext : Validator → EnforcementState CommitmentSignatures → Nat → CommitmentInfo2 → CommitmentSignatures → Rs.M (EnforcementState CommitmentSignatures))
+  (persist : EnforcementState CommitmentSignatures → Rs.M Unit)
+
+/-- **`revoke_previous_holder_commitment` on its generated body.**  A reply is either the no-state-change path
+    (`n ≠ next`: channel unchanged, nothing written, a secret only behind the release guard) or the advance
+    (`n = next`): the channel was NOT closed, a validated commitment was staged, the payment re-check passed, the new state is
+    `set_next_holder_commit_num(n + 1, staged)` of the state with the staging slot cleared, that state was written
+    successfully, and the secret of `n - 1` passed the release guard on the new state. -/
+theorem C02_fn_revoke_previous_holder_commitment
+    (hc : f "policy-revoke-not-closed" = true) (hf : f "policy-revoke-new-commitment-signed" = true)
+    (self self' : Channel CommitmentSignatures InMemorySigner ChannelId) (n : Nat) (pt : PublicKey) (sec : Option SecretKey)
+    (h : Channel.revoke_previous_holder_commitment unchecked validator f rel fs incoming outgoing node getState claimable
+           validatePayments setNext persist self n = .ok (self', (pt, sec))) :
+    (n ≠ self.enforcement_state.next_holder_commit_num ∧ self' = self ∧
+        (sec ≠ none → 1 ≤ n ∧ n + 1 ≤ self.enforcement_state.next_holder_commit_num))
+    ∨ (n = self.enforcement_state.next_holder_commit_num ∧ self.enforcement_state.channel_closed = false ∧
+        ∃ info sigs es',
+          self.enforcement_state.next_holder_commit_info = some (info, sigs) ∧
+          setNext validator { self.enforcement_state with next_holder_commit_info := none } (n + 1) info sigs = .ok es' ∧
+          self' = { self with enforcement_state := es' } ∧
+          persist es' = .ok () ∧
+          (sec ≠ none → 1 ≤ n ∧ n + 1 ≤ es'.next_holder_commit_num)) := by
+  unfold Channel.revoke_previous_holder_commitment at h
+  by_cases hne : n = self.enforcement_state.next_holder_commit_num
+  · right
+    simp only [bne_iff_ne, ne_eq, hne, not_true_eq_false, if_false] at h
+    have hcl : self.enforcement_state.channel_closed = false := by
+      cases hcl : self.enforcement_state.channel_closed
+      · rfl
+      · rw [if_pos hcl] at h
+        obtain ⟨_, hg2, _⟩ := fc_bind_ok h
+        simp [Rs.policyErr, hc, Rs.fail] at hg2
+    have hnc : ¬ (self.enforcement_state.channel_closed = true) := by simp [hcl]
+    rw [if_neg hnc] at h
+    cases hst : self.enforcement_state.next_holder_commit_info with
+    | none =>
+      rw [hst] at h
+      obtain ⟨_, hg2, _⟩ := fc_bind_ok h
+      simp [Rs.policyErr, hf, Rs.fail] at hg2
+    | some st =>
+      obtain ⟨info, sigs⟩ := st
+      rw [hst] at h
+      simp only [Option.isNone_some, Bool.false_eq_true, if_false] at h
+      obtain ⟨t2, ht2, h⟩ := fc_bind_ok h
+      have ht2v : (info, sigs) = t2 := Except.ok.inj ht2
+      subst ht2v
+      obtain ⟨delta, _, h⟩ := fc_bind_ok h
+      obtain ⟨_, _, h⟩ := fc_bind_ok h
+      obtain ⟨⟨s1, p1, ms⟩, hadv, h⟩ := fc_bind_ok h
+      obtain ⟨u, hper, h⟩ := fc_bind_ok h
+      have h' : (s1, p1, ms) = (self', pt, sec) := Except.ok.inj h
+      cases h'
+      unfold Channel.advance_holder_commitment_state at hadv
+      obtain ⟨n1, hn1, hadv⟩ := fc_bind_ok hadv
+      obtain ⟨es', hes, hadv⟩ := fc_bind_ok hadv
+      have hn1v : n1 = self.enforcement_state.next_holder_commit_num + 1 := by
+        unfold Rs.uadd at hn1; split at hn1
+        · exact (Except.ok.inj hn1).symm
+        · cases hn1
+      obtain ⟨hs1, hsec⟩ := C02_fn_release_commitment_secret unchecked validator f rel fs hf _ self' _ pt sec hadv
+      subst hs1
+      refine ⟨hne, hcl, info, sigs, es', rfl, ?_, rfl, by cases u; exact hper, ?_⟩
+      · rw [hne, ← hn1v]; exact hes
+      · intro hs; have := hsec hs; rw [hne]; exact this
+  · left
+    have hb : (n != self.enforcement_state.next_holder_commit_num) = true := by simp [hne]
+    simp only [hb, if_true] at h
+    obtain ⟨hs, hsec⟩ := C02_fn_release_commitment_secret unchecked validator f rel fs hf self self' n pt sec h
+    exact ⟨hne, hs, hsec⟩
+
+/-- **C02 on the code: once a closing signature marked the channel closed, revocation never advances the state** —
+    the channel comes back unchanged, nothing is written, and a secret in the reply is one the release guard already
+    allowed (`(n-1) + 2 ≤ next`, i.e. revoked before the signature). -/
+theorem C02_fn_revoke_closed_no_advance
+    (hc : f "policy-revoke-not-closed" = true) (hf : f "policy-revoke-new-commitment-signed" = true)
+    (self self' : Channel CommitmentSignatures InMemorySigner ChannelId) (n : Nat) (pt : PublicKey) (sec : Option SecretKey)
+    (hclosed : self.enforcement_state.channel_closed = true)
+    (h : Channel.revoke_previous_holder_commitment unchecked validator f rel fs incoming outgoing node getState claimable
+           validatePayments setNext persist self n = .ok (self', (pt, sec))) :
+    self' = self ∧ (sec ≠ none → 1 ≤ n ∧ (n - 1) + 2 ≤ self.enforcement_state.next_holder_commit_num) := by
+  rcases C02_fn_revoke_previous_holder_commitment unchecked validator f rel fs incoming outgoing node getState claimable
+      validatePayments setNext persist hc hf self self' n pt sec h with ⟨_, hs, hsec⟩ | ⟨_, hcl, _⟩
+  · exact ⟨hs, fun hne => by have := hsec hne; omega⟩
+  · rw [hclosed] at hcl; cases hcl
+
+/-- a store that refuses the advanced state means no reply (no secret) on the advancing path -/
+theorem C02_fn_revoke_no_secret_without_write
+    (hc : f "policy-revoke-not-closed" = true) (hf : f "policy-revoke-new-commitment-signed" = true)
+    (self : Channel CommitmentSignatures InMemorySigner ChannelId)
+    (hrefuse : ∀ es u, persist es ≠ .ok u) :
+    ∀ r, Channel.revoke_previous_holder_commitment unchecked validator f rel fs incoming outgoing node getState claimable
+           validatePayments setNext persist self self.enforcement_state.next_holder_commit_num ≠ .ok r := by
+  intro ⟨self', pt, sec⟩ h
+  rcases C02_fn_revoke_previous_holder_commitment unchecked validator f rel fs incoming outgoing node getState claimable
+      validatePayments setNext persist hc hf self self' _ pt sec h with ⟨hne, _⟩ | ⟨_, _, _, _, es', _, _, _, hper, _⟩
+  · exact hne rfl
+  · exact hrefuse es' () hper
+
+/-- non-vacuity: an open channel at `next = 1` with a staged commitment advances to `next = 2`, writes, and discloses the
+    secret of commitment 0; the same request on a closed channel is refused with `policy-revoke-not-closed` -/
+example :
+    let mk (closed : Bool) : Channel Nat Nat Nat :=
+      { keys := 7, enforcement_state := { next_holder_commit_num := 1, next_holder_commit_info := some (⟨⟩, 5), channel_closed := closed },
+        setup := ⟨⟩, id0 := 0 }
+    let run (c : Channel Nat Nat Nat) (n : Nat) :=
+      Channel.revoke_previous_holder_commitment (PublicKey := Nat) (SecretKey := Nat) (Validator := Unit) (Secret32 := Nat)
+        (PaymentSummary := Unit) (Node := Unit) (NodeState := Unit) (BalanceDelta := Unit)
+        (fun n => n) () (fun _ => true) (fun _ i => some i) (fun s => some s) (fun _ _ _ => ()) (fun _ _ _ => ()) () (fun _ => ())
+        (fun _ _ _ _ _ => .ok ()) (fun _ _ _ _ _ _ => .ok ())
+        (fun _ es n _ _ => .ok { es with next_holder_commit_num := n }) (fun _ => .ok ()) c n
+    run (mk false) 1 = .ok ({ keys := 7, enforcement_state := { next_holder_commit_num := 2, next_holder_commit_info := none, channel_closed := false },
+                              setup := ⟨⟩, id0 := 0 }, (2, some 281474976710655))
+    ∧ run (mk true) 1 = .error (.err "policy-revoke-not-closed") :=
+  ⟨rfl, rfl⟩
+
+end Revoke
 
 end VlsModel.Props.C02Fn
